@@ -66,9 +66,53 @@ Definition class_rule (v : ctab * ptab) (n : name) : rule :=
             else match best n (snd v) with Some (_, p) => RPol p | None => RNone end
   end.
 
-(* class-level rule of class number c of the hierarchy roots ++ h *)
+(* the same with "inherited" read as the code does: the direct bases in order, each with all it
+   inherited (depth first); differs from [mro_rule] below only in diamonds *)
 Definition spec_rule (h : list classdef) (c : nat) : name -> rule :=
   class_rule (vis_nth (visible (roots ++ h)) c).
+
+(* ----- "inherited" as Python means it: along the method resolution order (C3) ----- *)
+Definition heads_ok (c : nat) (seqs : list (list nat)) : bool :=
+  forallb (fun s => match s with [] => true | _ :: t => negb (existsb (Nat.eqb c) t) end) seqs.
+Fixpoint find_cand (cands seqs : list (list nat)) : option nat :=
+  match cands with
+  | [] => None
+  | [] :: r => find_cand r seqs
+  | (c :: _) :: r => if heads_ok c seqs then Some c else find_cand r seqs
+  end.
+Definition drop_head (c : nat) (s : list nat) : list nat :=
+  match s with x :: t => if Nat.eqb x c then t else s | [] => [] end.
+Fixpoint c3_merge (fuel : nat) (seqs : list (list nat)) : list nat :=
+  match fuel with
+  | O => []
+  | S f =>
+      match find_cand seqs seqs with
+      | Some c => c :: c3_merge f (map (drop_head c) seqs)
+      | None => []          (* all sequences empty — or no linearisation: Python refuses such a class *)
+      end
+  end.
+Definition mro_class (mros : list (list nat)) (k : nat) (cd : classdef) : list nat :=
+  match c_bases cd with
+  | [] => [k]
+  | [b] => k :: nth b mros []                       (* C3 with one base: L[k] = k :: L[b] *)
+  | bs => let seqs := map (fun b => nth b mros []) bs ++ [bs] in
+          k :: c3_merge (S (length (concat seqs))) seqs
+  end.
+Definition mros_from (mros : list (list nat)) (h : list classdef) : list (list nat) :=
+  fold_left (fun m cd => m ++ [mro_class m (length m) cd]) h mros.
+Definition mros (h : list classdef) : list (list nat) := mros_from [] h.
+
+(* declarations in MRO order; the class default "" -> Python closes the list if no class declares "" *)
+Definition mro_vis (h : list classdef) (c : nat) : ctab * ptab :=
+  let own := fun i => own_tables (c_decls (nth i h (mkClass [] []))) in
+  let m := nth c (mros h) [] in
+  let ct := flat_map (fun i => fst (own i)) m in
+  let pt := flat_map (fun i => snd (own i)) m in
+  (ct, if amem [] pt then pt else pt ++ [([], PPython)]).
+
+(* THE class-level rule of the law: class number c of the hierarchy roots ++ h *)
+Definition mro_rule (h : list classdef) (c : nat) : name -> rule :=
+  class_rule (mro_vis (roots ++ h) c).
 
 (* ----- what the governing policy demands ----- *)
 Inductive want := WVal (v : Z) | WDone | WRaise (e : exn) | WFree.
@@ -99,7 +143,13 @@ Definition demand (g : rule) (sb : option Z) (o : op) : want * option (option Z)
   | OSet _ v =>
       match g with
       | RPol PPython | RPol (PAny _) | RDunder => (WDone, Some (Some v))
-      | RPol (PTyped k _) => if accepts k v then (WDone, Some (Some v)) else (WRaise TraitError, Some sb)
+      | RPol (PTyped k _) =>
+          (* the trait's own validator decides; the Undefined marker is stored unvalidated (setattr_trait) *)
+          if Z.eqb v VUndef then (WDone, Some (Some v))
+          else match validate k v with
+               | Some w => (WDone, Some (Some w))
+               | None => (WRaise TraitError, Some sb)
+               end
       | RPol PDisallow | RPol (PConstant _) => (WRaise TraitError, Some sb)
       | RPol PEvent => (WDone, Some sb)
       | RPol PReadOnly => if defined sb then (WRaise TraitError, Some sb) else (WDone, Some (Some v))
